@@ -85,6 +85,12 @@ def generate(prop, seed, tier):
             if op == "cond_icdf":
                 o["p"] = [S.pick([0.001, 0.01, 0.05, 0.2, 0.5, 0.8, 0.95, 0.99, 0.999]) for _ in range(2)]
                 o["precision_factor"] = S.pick([0.1, 0.2])
+                if S.chance(0.25):
+                    # one call, entries that need samples of different sizes (the size follows from p)
+                    o["p"] = [S.pick([0.2, 0.5, 0.8]), S.pick([2.5e-4, 1 - 2.5e-4])]
+                    o["precision_factor"] = 1.0
+                    if S.chance(0.3):
+                        o["p"].reverse()
             o["pin"] = S.sub("cpin", k)
             ops.append(o)
         elif op == "iform":
@@ -467,6 +473,15 @@ def _execute(prop, scen):
                     ps = np.array(op["p"], dtype=float)
                     got = np.asarray(api(t.conditional_icdf, ps, dim, [np.array([g])] * len(ps), precision_factor=op["precision_factor"], random_state=op["seed"]), dtype=float)
                     run.event(k, [dim, op["given_q"], op["p"]], got)
+                    if op["seed"] is not None:
+                        # with a seed every entry is computed on its own: the entry of a batch equals the
+                        # result of asking for it alone
+                        for j_ in range(len(ps)):
+                            alone = np.asarray(api(t.conditional_icdf, ps[j_ : j_ + 1], dim, [np.array([g])], precision_factor=op["precision_factor"], random_state=op["seed"]), dtype=float)
+                            run.count("reproduction_checks")
+                            if not np.array_equal(alone, got[j_ : j_ + 1]):
+                                run.violate("I5-seeded-conditional-quantile-entrywise", site, {"given": g, "p": ps.tolist(), "entry": j_, "in_batch": float(got[j_]), "alone": float(alone[0]), "precision_factor": op["precision_factor"], "step": si})
+                                return run
                     for p_, x_ in zip(ps, got):
                         p_small = p_ if p_ < 0.5 else 1 - p_
                         n_used = int(min(max((1 / p_small) * 100 * op["precision_factor"], 100_000), 10_000_000))
